@@ -286,8 +286,9 @@ def select(ctx, sessions, quick):
     # production depending on a class of that name.  Never on mockapi (a new
     # compiler object per call).  quick: for the dependency defects every use
     # that makes the compiler look the class up in its list of known classes
-    # x every spelling, the other uses with one spelling; sibling-shape and
-    # value defects with a sample; thorough: all
+    # with the lower-case spelling (the list holds lower-cased names) and two
+    # more use/spelling pairs; one per sibling shape, half of the value
+    # defects; thorough: all
     n_f = 0
     groups = {}
     for s, h, f in parts.get("F", []):
@@ -296,25 +297,26 @@ def select(ctx, sessions, quick):
         cands = sorted(groups[g], key=lambda c: (c[1]["v"], c[1]["a"]))
         if quick:
             if g[0][1] == "dependency" and g[1] == 0:
-                keep = [c for c in cands if c[1]["v"] in
+                keep = [c for c in cands if c[1]["a"] == 1 and c[1]["v"] in
                         ("ref_failed", "emb_failed", "param_failed")]
-                for u in ("sub_failed", "of_failed"):
-                    keep.append(rng.choice([c for c in cands
-                                            if c[1]["v"] == u]))
-                cands = keep
+                cands = keep + rng.sample([c for c in cands
+                                           if c not in keep], 2)
+            elif g[0][1] == "dependency" or rng.random() < 0.5:
+                cands = rng.sample(cands, 1)
             else:
-                cands = rng.sample(cands, 2 if g[0][1] == "dependency" else 1)
+                cands = []
         for s, h in cands:
             add(s, *F_COMBOS[n_f % len(F_COMBOS)])
             n_f += 1
     # ---- part G: the namespace pragma other_full, then a production.
-    # quick: every dependency defect and valid variant, a third of the value
-    # defects; thorough: all, on two api/handle pairs
+    # quick: every dependency defect, half of the valid variants, a third of
+    # the value defects; thorough: all, on two api/handle pairs
     n_g = 0
     for s, h, f in sorted(parts.get("G", []),
                           key=lambda x: (pkey(x[2]), x[2]["a"])):
-        if quick and f["d"] == "value" and rng.random() > 0.34 and \
-                f["v"] != "real_huge_int":
+        if quick and f["v"] != "real_huge_int" and (
+                (f["d"] == "value" and rng.random() > 0.34) or
+                (f["d"] == "none" and rng.random() > 0.5)):
             continue
         add(s, *COMBOS[n_g % len(COMBOS)])
         if not quick:
